@@ -386,6 +386,9 @@ func concBody(x *Exec, raw json.RawMessage) {
 	if has(p.Oracles, "lin") {
 		checkLinearizable(x, r, p, setupRecs, recs, nAtomicSetup)
 	}
+	if has(p.Oracles, "deadline-setters") {
+		checkDeadlineSetters(x, r, p, recs)
+	}
 	if has(p.Oracles, "refresh-results") {
 		// every explicit Refresh delivers exactly one result, and it is the outcome of a load of that key
 		for _, rc := range r.refreshChans {
